@@ -401,3 +401,44 @@ func (p *Prog) DepFunc(pkgPath, recv, name string) *FuncInfo {
 	}
 	return nil
 }
+
+// within: node n lies inside root – by position, or (for inlined copies of helper bodies, whose positions are those of
+// the helper) by identity.
+func within(root ast.Node, n ast.Node) bool {
+	if root == nil || n == nil || reflectNil(root) || reflectNil(n) {
+		return false
+	}
+	if posIn(root, n.Pos()) {
+		return true
+	}
+	if !inlinedNodes[n] {
+		return false
+	}
+	found := false
+	ast.Inspect(root, func(x ast.Node) bool {
+		if x == n {
+			found = true
+		}
+		return !found
+	})
+	return found
+}
+
+// localIn: v is declared inside body (or belongs to an inlined copy of a helper body).
+func localIn(body ast.Node, v types.Object) bool {
+	if v == nil || body == nil || reflectNil(body) {
+		return false
+	}
+	return posIn(body, v.Pos()) || inlineFresh[v]
+}
+
+func reflectNil(n ast.Node) bool {
+	rv := reflect.ValueOf(n)
+	return rv.Kind() == reflect.Ptr && rv.IsNil()
+}
+
+// nodes and variables that the helper-inlining pass created (inline.go)
+var (
+	inlinedNodes = map[ast.Node]bool{}
+	inlineFresh  = map[types.Object]bool{}
+)
